@@ -12,8 +12,8 @@
    counterexamples are the known findings reg-*.                                              *)
 From Coq Require Import List ZArith NArith Bool Arith.
 From GrolGen Require Import Gen_Consts.
-From GrolModel Require Import Ast Modify Registers Session.
-From GrolProofs Require Import Registers_proofs Modify_proofs Session_proofs.
+From GrolModel Require Import Ast Modify Registers Session RegFragment.
+From GrolProofs Require Import Registers_proofs Modify_proofs Session_proofs RegFragment_proofs.
 Import ListNotations.
 
 (* ---- the full statement, for any notion of program / run / observation ---- *)
@@ -56,6 +56,19 @@ Theorem modify_register_spec : forall (name : bytes) (n : node),
   wf_node n = true ->
   modify_register name n = if bails name n then RBail else ROk (subst_reg name n).
 Proof. exact modify_register_spec_lemma. Qed.
+
+(* ---- the rewrite is sound on the integer fragment (stretch) ---- *)
+(* bodies made of integer literals, identifiers, + - * with 64-bit wrap-around, unary minus,
+   assignments to identifiers and statement sequences (anything else is IUnsupported, about which
+   nothing is claimed): evaluating the rewritten body with the name in the register gives the
+   same result as evaluating the original body with the name as an ordinary variable, and the
+   final bindings correspond (register = the variable's value, all other names alike) *)
+Theorem rewrite_sound : forall (x : bytes) (body : node) (sv sr : istate),
+  reg_related x sv sr ->
+  fst (ieval None body sv) <> IUnsupported ->
+  fst (ieval (Some x) (subst_reg x body) sr) = fst (ieval None body sv)
+  /\ reg_related x (snd (ieval None body sv)) (snd (ieval (Some x) (subst_reg x body) sr)).
+Proof. exact rewrite_sound_lemma. Qed.
 
 (* ---- the full statement holds of skeleton sessions (control outcomes) ---- *)
 Definition skeleton_run (regs : bool) (inputs : list skel) : list okind :=
@@ -134,7 +147,22 @@ Example C05_ex_rewrite :
      = ROk (NStmts [Some (NPrefix (tkn token_DECR [45%N;45%N]) (Some idm))]).
 Proof. vm_compute. repeat split; reflexivity. Qed.
 
+(* `t = n + 1; n = t * -n; n` with n = 5: variable mode and register mode agree (-30) *)
+Definition idt : node := NIdent (tkn token_IDENT [116%N]).
+Definition frag_body : node :=
+  NStmts [Some (NInfix (tkn token_ASSIGN [61%N]) (Some idt) (Some (NInfix (tkn token_PLUS [43%N]) (Some idn) (Some one))));
+          Some (NInfix (tkn token_ASSIGN [61%N]) (Some idn)
+                  (Some (NInfix (tkn token_ASTERISK [42%N]) (Some idt) (Some (NPrefix (tkn token_MINUS [45%N]) (Some idn))))));
+          Some idn].
+Example C05_ex_rewrite_sound :
+  reg_related [110%N] ([([110%N], 5%Z)], 0%Z) ([], 5%Z)
+  /\ fst (ieval None frag_body ([([110%N], 5%Z)], 0%Z)) = IVal (-30)
+  /\ fst (ieval (Some [110%N]) (subst_reg [110%N] frag_body) ([], 5%Z)) = IVal (-30)
+  /\ snd (snd (ieval (Some [110%N]) (subst_reg [110%N] frag_body) ([], 5%Z))) = (-30)%Z.
+Proof. split; [split; [reflexivity | intros q _; reflexivity] | vm_compute; repeat split; reflexivity]. Qed.
+
 Print Assumptions regfile_balanced.
+Print Assumptions rewrite_sound.
 Print Assumptions regfile_never_overflows.
 Print Assumptions release_is_lifo.
 Print Assumptions modify_register_spec.
